@@ -37,7 +37,7 @@ def client_api_action(r, p=gv.SMALL):
         return ("bind_sasl", r.choice(["GSSAPI", "", "EXTERNAL", "gssapi", "Digest-md5", "x-\u00df\ufb01", "\u0131"]), r.choice([None, "cn=a"]), r.choice([None, b"", b"tok"]), _ctl(r))
     if x < 0.62:
         flt = gv.g_filter(r, p) if r.random() < 0.5 else None
-        return ("search", r.choice([None, "", "dc=x"]), r.choice([0, 1, 2]), r.choice([0, 1, 2, 3]), r.choice([0, 5, 1000, 2**30, 2**30 + 1, 2**31 - 1]), r.choice([0, 60, 2**30 + 7, 2**31 - 1]),
+        return ("search", r.choice([None, "", "dc=x"]), r.choice([0, 1, 2]), r.choice([0, 1, 2, 3]), r.choice([0, 5, 1000, 2**30, 2**30 + 1, 2**31 - 1, -1]), r.choice([0, 60, 2**30 + 7, 2**31 - 1, -2]),
                 r.random() < 0.3, flt, r.choice([None, (), ("cn",), ("*", "+")]), _ctl(r))
     if x < 0.88:
         name = r.choice(["1.3.6.1.4.1.1466.20037", "1.2.3", NOTICE_OID])
@@ -60,7 +60,7 @@ def server_api_action(r, drv: Driver, retired, p=gv.SMALL):
             name = gv.g_lookalike_oid(r, NOTICE_OID)
         return ("extended_response", mid, name, r.choice([None, b"v"]), r.choice([0, 2, 52]), md, dm, _ctl(r))
     if x < 0.6:
-        return ("entry", mid, "cn=e", (("cn", (b"e",)),), _ctl(r))
+        return ("entry", mid, "cn=e", r.choice([(("cn", (b"e",)),), (("cn", (b"e",)),), (("member", (b"a",)), ("MEMBER", (b"b",)), ("member", (b"a",))), (("cn", ()),), ()]), _ctl(r))
     if x < 0.7:
         return ("reference", mid, ("ldap://x/",), _ctl(r))
     if x < 0.92:
